@@ -43,6 +43,10 @@ STM = [
 # a second alphabet: language semantics where running in a dict through exec(), with mocked builtins and modules,
 # could differ from running the file (scoping, class bodies, generators, decorators, imports, formatting, exits)
 LANG = ['x = 5',
+        # functions that receive values which cannot be copied or looked at twice (views, generators, files, modules)
+        "def total(vs):\n    return sum(vs)\nprices = {'a': 1, 'b': 2}\nprint(total(prices.values()), total(v for v in [1, 2]))",
+        "import math\ndef area(m, r):\n    return m.pi * r\nprint(round(area(math, 2), 2))",
+        "def first(it):\n    return next(it)\nprint(first(iter([7, 8])), first(zip('ab', 'cd')))",
  'def outer():\n    k = 1\n    def inner():\n        nonlocal k\n        k += 1\n        return k\n    return inner()\nprint(outer())',
  'gen = (i for i in range(3))\nprint(next(gen), list(gen))',
  'def gf():\n    yield 1\n    yield 2\nprint(list(gf()))',
@@ -267,9 +271,12 @@ def make_programs(max_len, pool, STM=STM):
         sb = sb_cmds.get_sandbox()
         sb.set_input(list(queue))
         # the sandbox may be configured to run everything under a time limit (as the environments do): same behaviour
-        if ctx.choose(2, 'configured-threaded'):
+        conf = ctx.choose(3, 'sandbox-configuration')      # plain | threaded | line tracing on (as the environments have it)
+        if conf == 1:
             sb.threaded = True
             sb.allowed_time = 20
+        elif conf == 2:
+            sb.tracer_style = 'native'
         ctx.step('run')
         try:
             sb.run()
